@@ -514,3 +514,55 @@ Example C16_reload_without_inheritable_listener_nonvacuous :
   fds_lookup 0 [(0, mkSrv 0 true 0 false false); (1, mkSrv 1 false 1 false false)] = None /\
   fds_lookup 1 [(0, mkSrv 0 true 0 false false); (1, mkSrv 1 false 1 false false)] = None.
 Proof. vm_compute. repeat split; auto 20. Qed.
+
+(* ================================================================== Restart against signals and Stops (small-step, all schedules) *)
+Theorem C16_race_handlers_exactly_once :
+  forall (l : list inst) (p : list ract) (cs : list rchoice) (m : rst),
+    NoDup (ids l) -> rrun (rinit l p) cs = Some m ->
+    NoDup (ids (r_iters m)) /\
+    htrace m = (if r_once m then [EHook HShutdown 0] else []) ++ all_shutdown (r_iters m).
+Proof. exact race_handlers_once. Qed.
+Print Assumptions C16_race_handlers_exactly_once.
+
+Theorem C16_race_restart_program_order :
+  forall (l : list inst) (p : list ract) (cs : list rchoice) (m : rst),
+    rrun (rinit l p) cs = Some m -> rtrace m ++ prog_events (r_prog m) = prog_events p.
+Proof. exact race_program_order. Qed.
+Print Assumptions C16_race_restart_program_order.
+
+Theorem C16_race_restart_program_refines :
+  forall (o : inst) (c : config) (s : state),
+    prog_events (restart_prog o c s) = snd (fst (restart_body o c s)).
+Proof. exact restart_prog_refines. Qed.
+Print Assumptions C16_race_restart_program_refines.
+
+(* "each OnShutdown callback at most once" and "OnStartup before any OnShutdown of the same
+   instance" are FALSE under a signal that arrives during a reload *)
+Theorem C16_race_shutdown_at_most_once_refuted :
+  exists m, rrun (rinit (insts race_state) (restart_prog race_old race_cfg race_state)) race_sched = Some m
+            /\ r_prog m = [] /\ NoDup (ids (insts race_state))
+            /\ count_ev (ECb KShutdown 0 0) (ftrace m) = 2
+            /\ ordered (is_cb KStartup 1) (is_cb KShutdown 1) (ftrace m) = false.
+Proof. exact race_old_shutdown_twice. Qed.
+Print Assumptions C16_race_shutdown_at_most_once_refuted.
+
+Example C16_race_handlers_exactly_once_nonvacuous :
+  exists m, rrun (rinit (insts race_state) (restart_prog race_old race_cfg race_state)) race_sched = Some m
+            /\ NoDup (ids (insts race_state)) /\ r_once m = true /\ length (r_iters m) = 2.
+Proof. eexists. split; [vm_compute; reflexivity|]. split; [vm_compute; repeat constructor; simpl; tauto|]. split; reflexivity. Qed.
+
+Theorem C16_race_shutdown_at_most_once_partial :
+  forall (l : list inst) (p : list ract) (cs : list rchoice) (m : rst),
+    NoDup (ids l) -> rrun (rinit l p) cs = Some m ->
+    NoDup (ids (r_iters m)) /\
+    forall e, count_ev e (ftrace m) <=
+              count_ev e ((if r_once m then [EHook HShutdown 0] else []) ++ all_shutdown (r_iters m))
+              + count_ev e (prog_events p).
+Proof. exact race_whole_trace_bound. Qed.
+Print Assumptions C16_race_shutdown_at_most_once_partial.
+
+Example C16_race_shutdown_at_most_once_partial_nonvacuous :
+  exists m, rrun (rinit (insts race_state) (restart_prog race_old race_cfg race_state)) race_sched = Some m
+            /\ NoDup (ids (insts race_state)) /\ count_ev (ECb KFinal 0 0) (ftrace m) = 0
+            /\ count_ev (ECb KShutdown 1 0) (ftrace m) = 1.
+Proof. eexists. split; [vm_compute; reflexivity|]. split; [vm_compute; repeat constructor; simpl; tauto|]. split; reflexivity. Qed.
